@@ -30,6 +30,13 @@ const N_SESSIONS: usize = 4;
 /// Topic of each session: three on T1, one on T2.
 const TOPIC_OF: [u8; N_SESSIONS] = [1, 1, 1, 2];
 const OP_NAMES: [&str; 2] = ["x", "y"];
+/// When the consumer calls `subscribe()`.
+const SUB_MODES: usize = 3;
+const SUB_TEXT: [&str; 3] = [
+    "before the sessions were created",
+    "after two sessions were created",
+    "after all sessions were created",
+];
 
 #[derive(Clone, Copy, Debug, PartialEq, Eq, Hash, PartialOrd, Ord)]
 pub enum Action {
@@ -446,9 +453,18 @@ fn judge(obs: &Obs) -> Verdict {
                         continue;
                     }
                     if outs(t, o) != 1 {
+                        // Two different classes: the manager event stream never reported the
+                        // operation at all (its event got lost on the way), or it did and still
+                        // did not forward it to this session.
+                        let reported = obs.consumer_ops.iter().any(|(_, i)| *i == o);
+                        let key = if reported {
+                            "not-forwarded/live-session-missed-op"
+                        } else {
+                            "not-forwarded/operation-event-never-reached-the-event-stream"
+                        };
                         v.push((
-                            "not-forwarded/live-session-missed-op".into(),
-                            format!("Live({name}) was received by session(s) {receivers:?} of topic T{topic_id}, session {t} is live on the same topic and never received it from its own remote, but wrote Live({name}) {} times", outs(t, o)),
+                            key.into(),
+                            format!("Live({name}) was received by session(s) {receivers:?} of topic T{topic_id}, session {t} is live on the same topic and never received it from its own remote, but wrote Live({name}) {} times; the manager event stream {} OperationReceived({name})", outs(t, o), if reported { "reported" } else { "never reported" }),
                         ));
                     }
                 }
@@ -471,7 +487,6 @@ fn judge(obs: &Obs) -> Verdict {
 
 pub fn run(mut rep: Report) -> i32 {
     let thorough = rep.thorough();
-    let (max_len, max_dev, sub_modes) = if thorough { (4usize, 2usize, 3usize) } else { (3, 2, 3) };
     rep.rule = "execution = (canonical action script, where the consumer subscribed, schedule); non-trivial when some operation reached the node from at least two sources (two remotes, the same remote twice, or remote + local publish) and at least one forward to another session's remote was observed".into();
     rep.assume("scripts are canonical up to renaming of the three same-topic sessions and of the two operations (first use order); the manager keys sessions by id in hash maps and does not order them");
     rep.assume("nothing is addressed to a session after its Close action; a scripted remote closes its stream when it receives a Close frame");
@@ -481,77 +496,109 @@ pub fn run(mut rep: Report) -> i32 {
     rep.assume("std RandomState decides HashSet/HashMap iteration order inside SessionTopicMap and TopicSyncManager::subscribe; it only permutes the order of channel sends inside one poll, which E-TASK's scheduling rule (lowest task id among the woken) does not observe");
     rep.assume("MemStore (refmodel) instead of SqliteStore; no tokio runtime: sessions, manager event stream and consumer are E-TASK tasks");
 
-    let all_scripts = scripts(max_len);
-    rep.set("scripts", json!(all_scripts.len()));
     rep.set("alphabet", json!(alphabet().iter().map(|a| a.text()).collect::<Vec<_>>()));
-    rep.set("max_script_len", json!(max_len));
-    let cfg = DfsCfg {
-        max_dev,
-        max_execs: u64::MAX,
-        wall: std::time::Duration::from_secs(if thorough { 540 } else { 30 }),
-        threads: rep.args.threads,
+    // (part name, max script length, deviation bound, wall cap in seconds)
+    let parts: Vec<(&str, usize, usize, u64)> = if thorough {
+        vec![("len<=4/dev<=2", 4, 2, 400), ("len<=3/dev<=4", 3, 4, 200)]
+    } else {
+        vec![("len<=3/dev<=2", 3, 2, 30)]
     };
-    let mut coll: Collector<Obs> = Collector::new();
+    let mut all: Collector<Obs> = Collector::new();
     let mut total_forwards = 0u64;
-    let n_scripts = all_scripts.len();
-    let st = dfs_par(
-        &cfg,
-        |ch| {
-            let si = ch.choose_free(n_scripts, "script");
-            let sub = ch.choose_free(sub_modes, "subscribe");
-            let obs = run_one(&all_scripts[si], sub, ch);
-            (si, sub, obs)
-        },
-        |ch, (si, sub, obs)| {
-            let script = &all_scripts[si];
-            let verdict = judge(&obs);
-            total_forwards += verdict.forwards as u64;
-            if !obs.setup_ok {
-                rep.machinery_error(format!("C23 setup phase did not bring all sessions into live mode (script {si}, subscribe mode {sub})"));
-            }
-            rep.state(&(&obs.io, &obs.consumer_ops, &obs.ends));
-            rep.outcome(&(&obs.io, &obs.accepted, &obs.consumer_ops, &obs.ends));
-            if verdict.nontrivial {
-                rep.nontrivial(&(si, sub, ch.vector()));
-                if rep.want_sample() && si % 97 == 13 {
-                    rep.sample(json!({
-                        "script": script.iter().map(|a| a.text()).collect::<Vec<_>>(),
-                        "subscribe_mode": sub, "choices": ch.describe(),
-                        "io_per_session": format!("{:?}", obs.io),
-                        "consumer_ops": format!("{:?}", obs.consumer_ops),
-                    }));
+    let mut part_info = vec![];
+    for (name, max_len, max_dev, wall) in parts {
+        let all_scripts = scripts(max_len);
+        let n_scripts = all_scripts.len();
+        part_info.push(json!({"part": name, "max_script_len": max_len, "deviation_bound": max_dev, "canonical_scripts": n_scripts, "subscribe_modes": SUB_MODES}));
+        let cfg = DfsCfg {
+            max_dev,
+            max_execs: u64::MAX,
+            wall: std::time::Duration::from_secs(wall),
+            threads: rep.args.threads,
+        };
+        let mut coll: Collector<Obs> = Collector::new();
+        let st = dfs_par(
+            &cfg,
+            |ch| {
+                let si = ch.choose_free(n_scripts, "script");
+                let sub = ch.choose_free(SUB_MODES, "subscribe");
+                let obs = run_one(&all_scripts[si], sub, ch);
+                (si, sub, obs)
+            },
+            |ch, (si, sub, obs)| {
+                let script = &all_scripts[si];
+                let verdict = judge(&obs);
+                total_forwards += verdict.forwards as u64;
+                if !obs.setup_ok {
+                    rep.machinery_error(format!("C23 setup phase did not bring all sessions into live mode (script {si}, subscribe mode {sub})"));
+                }
+                rep.state(&(&obs.io, &obs.consumer_ops, &obs.ends));
+                rep.outcome(&(&obs.io, &obs.accepted, &obs.consumer_ops, &obs.ends));
+                if verdict.nontrivial {
+                    rep.nontrivial(&(script, sub, &ch.vector()[2..]));
+                }
+                for (key, detail) in verdict.violations {
+                    let vector = ch.vector();
+                    let rank = (ch.deviations() as u64, script.len() as u64, vector.clone());
+                    coll.add(key, rank, &obs, || {
+                        (
+                            format!(
+                                "script [{}], consumer subscribed {}, {} deviation(s) [{}]: {}. I/O per session: {:?}; OperationReceived emitted per session: {:?}; consumer saw (session, op) {:?}; session ends {:?}",
+                                script.iter().map(|a| a.text()).collect::<Vec<_>>().join("; "),
+                                SUB_TEXT[sub], ch.deviations(), brief(ch), detail, obs.io, obs.accepted, obs.consumer_ops, obs.ends
+                            ),
+                            json!({"part": name, "script_index": si, "script": format!("{script:?}"), "subscribe_mode": sub, "vector": vector, "choices": ch.describe()}),
+                        )
+                    });
+                }
+            },
+        );
+        for (key, e) in &coll.map {
+            for _ in 0..2 {
+                let ch = Chooser::new(e.rank.2.clone());
+                let si = ch.choose_free(n_scripts, "script");
+                let sub = ch.choose_free(SUB_MODES, "subscribe");
+                let again = run_one(&all_scripts[si], sub, &ch);
+                if again != e.obs {
+                    rep.machinery_error(format!("C23 {name}: witness of {key} is not reproducible (uncaptured nondeterminism)"));
                 }
             }
-            for (key, detail) in verdict.violations {
-                let vector = ch.vector();
-                let rank = (ch.deviations() as u64, script.len() as u64, vector.clone());
-                coll.add(key, rank, &obs, || {
-                    (
-                        format!(
-                            "script [{}], consumer subscribed {}, {} deviation(s) [{}]: {}. I/O per session: {:?}; OperationReceived emitted per session: {:?}; consumer saw (session, op) {:?}; session ends {:?}",
-                            script.iter().map(|a| a.text()).collect::<Vec<_>>().join("; "),
-                            ["before the sessions were created", "after two sessions were created", "after all sessions were created"][sub],
-                            ch.deviations(), brief(ch), detail, obs.io, obs.accepted, obs.consumer_ops, obs.ends
-                        ),
-                        json!({"part": "live", "script_index": si, "script": format!("{script:?}"), "subscribe_mode": sub, "vector": vector, "choices": ch.describe()}),
-                    )
-                });
-            }
-        },
-    );
-    for (key, e) in &coll.map {
-        for _ in 0..2 {
-            let ch = Chooser::new(e.rank.2.clone());
-            let si = ch.choose_free(n_scripts, "script");
-            let sub = ch.choose_free(sub_modes, "subscribe");
-            let again = run_one(&all_scripts[si], sub, &ch);
-            if again != e.obs {
-                rep.machinery_error(format!("C23: witness of {key} is not reproducible (uncaptured nondeterminism)"));
+        }
+        // real cases for the evidence file
+        for si in [n_scripts / 3, n_scripts / 2, n_scripts - 1] {
+            if rep.want_sample() {
+                let ch = Chooser::new(vec![si as u32, 0]);
+                let si = ch.choose_free(n_scripts, "script");
+                let sub = ch.choose_free(SUB_MODES, "subscribe");
+                let obs = run_one(&all_scripts[si], sub, &ch);
+                rep.sample(json!({
+                    "script": all_scripts[si].iter().map(|a| a.text()).collect::<Vec<_>>(),
+                    "subscribe": SUB_TEXT[sub], "schedule": "default",
+                    "wire_log_per_session": format!("{:?}", obs.io),
+                    "consumer_saw": format!("{:?}", obs.consumer_ops),
+                    "session_ends": format!("{:?}", obs.ends),
+                }));
             }
         }
+        for (key, e) in coll.map {
+            match all.map.get_mut(&key) {
+                Some(a) => {
+                    a.count += e.count;
+                    if e.rank < a.rank {
+                        let c = a.count;
+                        *a = e;
+                        a.count = c;
+                    }
+                }
+                None => {
+                    all.map.insert(key, e);
+                }
+            }
+        }
+        rep.absorb_dfs(name, &st, max_dev);
     }
-    coll.flush(&mut rep);
-    rep.absorb_dfs("live", &st, max_dev);
+    all.flush(&mut rep);
+    rep.set("exploration_parts", json!(part_info));
     rep.set("forwards_observed", json!(total_forwards));
     rep.finish()
 }
